@@ -202,6 +202,120 @@ func genStore(rng *rand.Rand, id uint64, ver int, big bool) *metapb.Store {
 	return s
 }
 
+// edgeKeys: region keys with 0x00 / 0xff / '/' / ',' bytes, path-like spellings, keys that are prefixes of
+// each other, a key that looks like a storage path and a TiKV-encoded table key.
+var edgeKeys = []string{"\x00", "\x00\x00", "\xff", "\xff\xff", "/", "a", "a/", "a/b", "a\x00", "a\x00\x00", "a\xff", "aa", "a,b", ",",
+	"..", "../", "raft/r/", "raft/r/00000000000000000001", "t\x80\x00\x00\x00\x00\x00\x00\xff", "t\x80\x00\x00\x00\x00\x00\x00\xff\x00", "z", "z\xff\xff\xff"}
+
+var edgeWeights = []float64{math.NaN(), -1, math.Copysign(0, -1), math.Inf(1), math.Inf(-1), math.MaxFloat64, -math.MaxFloat64,
+	math.SmallestNonzeroFloat64, 1e-320, 1e22, 1e21, 123456789012345680000, 0.1, 1}
+
+// mutateStore returns a copy of s that differs from it in exactly one field (which one: by k).
+func mutateStore(rng *rand.Rand, s *metapb.Store, k int) *metapb.Store {
+	bs, _ := s.Marshal()
+	c := &metapb.Store{}
+	c.Unmarshal(bs)
+	switch k % 12 {
+	case 0:
+		c.Address += "x"
+	case 1:
+		c.State = metapb.StoreState((int(c.State) + 1) % 3)
+	case 2:
+		c.Version += ".1"
+	case 3:
+		c.StatusAddress += "s"
+	case 4:
+		c.GitHash += "g"
+	case 5:
+		c.StartTimestamp++
+	case 6:
+		c.DeployPath += "/d"
+	case 7:
+		c.LastHeartbeat++
+	case 8:
+		c.PeerAddress += "p"
+	case 9:
+		c.PhysicallyDestroyed = !c.PhysicallyDestroyed
+	case 10: // one label value, or the letter case of one label key
+		if len(c.Labels) == 0 {
+			c.Labels = append(c.Labels, &metapb.StoreLabel{Key: "zone", Value: "z1"})
+		} else if rng.Intn(2) == 0 {
+			c.Labels[0].Value += "'"
+		} else {
+			c.Labels[0].Key = swapCase(c.Labels[0].Key)
+		}
+	default: // a label more (same key in another case, empty value) or one less
+		if len(c.Labels) > 0 && rng.Intn(2) == 0 {
+			c.Labels = c.Labels[:len(c.Labels)-1]
+		} else {
+			c.Labels = append(c.Labels, &metapb.StoreLabel{Key: "Zone", Value: ""})
+		}
+	}
+	return c
+}
+
+func swapCase(s string) string {
+	b := []byte(s)
+	for i, ch := range b {
+		if ch >= 'a' && ch <= 'z' {
+			b[i] = ch - 32
+			return string(b)
+		}
+		if ch >= 'A' && ch <= 'Z' {
+			b[i] = ch + 32
+			return string(b)
+		}
+	}
+	return s + "X"
+}
+
+// mutateRegion returns a copy of r that differs from it in exactly one field.
+func mutateRegion(rng *rand.Rand, r *metapb.Region, k int) *metapb.Region {
+	bs, _ := r.Marshal()
+	c := &metapb.Region{}
+	c.Unmarshal(bs)
+	if c.RegionEpoch == nil {
+		c.RegionEpoch = &metapb.RegionEpoch{}
+	}
+	switch k % 9 {
+	case 0:
+		c.StartKey = append(c.StartKey, 0x00)
+	case 1:
+		c.EndKey = append(c.EndKey, 0xff)
+	case 2:
+		c.RegionEpoch.ConfVer++
+	case 3:
+		c.RegionEpoch.Version++
+	case 4:
+		if len(c.Peers) > 0 {
+			c.Peers[0].Id++
+		} else {
+			c.Peers = append(c.Peers, &metapb.Peer{Id: 1, StoreId: 1})
+		}
+	case 5:
+		if len(c.Peers) > 0 {
+			c.Peers[len(c.Peers)-1].StoreId++
+		} else {
+			c.Peers = append(c.Peers, &metapb.Peer{Id: 2, StoreId: 2})
+		}
+	case 6:
+		if len(c.Peers) > 0 {
+			c.Peers[0].Role = metapb.PeerRole((int(c.Peers[0].Role) + 1) % 4)
+		} else {
+			c.StartKey = []byte{}
+		}
+	case 7:
+		c.Peers = append(c.Peers, &metapb.Peer{Id: rng.Uint64()>>1 + 1, StoreId: 9})
+	default:
+		if len(c.Peers) > 1 {
+			c.Peers = c.Peers[:len(c.Peers)-1]
+		} else {
+			c.EndKey = []byte{}
+		}
+	}
+	return c
+}
+
 func keyLen(rng *rand.Rand, class string, pos, total int) int {
 	switch class {
 	case "large":
@@ -222,10 +336,20 @@ func keyLen(rng *rand.Rand, class string, pos, total int) int {
 
 // genRegion makes a region record for the exactly-once cases (ranges are arbitrary there).
 func genRegion(rng *rand.Rand, id uint64, ver int, class string, pos, total int) *metapb.Region {
+	sk, ek := randBytes(rng, keyLen(rng, class, pos, total)), randBytes(rng, keyLen(rng, class, pos, total))
+	if class == "edgy" {
+		sk, ek = []byte(edgeKeys[rng.Intn(len(edgeKeys))]), []byte(edgeKeys[rng.Intn(len(edgeKeys))])
+		if rng.Intn(6) == 0 {
+			sk = []byte{}
+		}
+		if rng.Intn(6) == 0 {
+			ek = []byte{}
+		}
+	}
 	r := &metapb.Region{
 		Id:          id,
-		StartKey:    randBytes(rng, keyLen(rng, class, pos, total)),
-		EndKey:      randBytes(rng, keyLen(rng, class, pos, total)),
+		StartKey:    sk,
+		EndKey:      ek,
 		RegionEpoch: &metapb.RegionEpoch{ConfVer: uint64(1 + rng.Intn(5)), Version: uint64(ver + 1)},
 	}
 	for i, np := 0, 1+rng.Intn(3); i < np; i++ {
@@ -249,6 +373,20 @@ func genWorld(rng *rand.Rand, ids []uint64, class string) []*metapb.Region {
 	// cur-1 distinct split keys
 	keys := map[string]bool{}
 	var splits [][]byte
+	if class == "edgy" {
+		// split keys that are prefixes / successors of each other and contain 0x00, 0xff, '/' and ','
+		var cand []string
+		for _, e := range edgeKeys {
+			cand = append(cand, e, e+"\x00", e+"\xff", e+"/")
+		}
+		rng.Shuffle(len(cand), func(i, j int) { cand[i], cand[j] = cand[j], cand[i] })
+		for _, c := range cand {
+			if len(splits) < cur-1 && !keys[c] {
+				keys[c] = true
+				splits = append(splits, []byte(c))
+			}
+		}
+	}
 	for len(splits) < cur-1 {
 		l := 2 + rng.Intn(6)
 		if class == "large" && rng.Intn(4) == 0 {
